@@ -102,6 +102,17 @@ pub enum Outcome {
 
 /// check() under catch_unwind, with panics attributed as described in DESIGN 6.
 pub fn check_guarded(p: &dyn Property, trace: &Trace, cov: &mut Coverage) -> Outcome {
+    // Domain guard (matters for minimisation, which deletes bytes): the character front end
+    // takes Strings, so every chunk of a Front::Chars trace must be valid UTF-8.
+    if trace.front == crate::trace::Front::Chars {
+        for s in &trace.steps {
+            if let crate::trace::Step::Feed(b) = s {
+                if std::str::from_utf8(b).is_err() {
+                    return Outcome::Held;
+                }
+            }
+        }
+    }
     exec::set_current_op("");
     match exec::guarded(|| p.check(trace, cov)) {
         Ok(Ok(())) => Outcome::Held,
